@@ -16,9 +16,14 @@ func (r *Run) ringCases(n int) {
 	for i := 0; i < n; i++ {
 		size := []int{1, 2, 3, 4, 5, 7, 8, 16, 33}[g.Intn(9)]
 		rb := ringbuffer.New(size)
+		fast := g.Chance(20) // the read loop's fast path: NewWithData over fresh bytes, then reads only, then PeekAll
+		if fast {
+			rb = ringbuffer.NewWithData(g.Bytes(size))
+			r.count("ring.start.withdata")
+		}
 		// setup: mostly "fill, retrieve a part, write again" so that wrapped and full states dominate; else a random walk
 		// (which includes growth through makeSpace and complete retrievals)
-		if g.Chance(70) {
+		if !fast && g.Chance(70) {
 			a := 1 + g.Intn(size)
 			_, _ = rb.Write(g.Bytes(a))
 			if a > 1 {
@@ -27,7 +32,7 @@ func (r *Run) ringCases(n int) {
 			free := rb.Capacity() - rb.Length()
 			_, _ = rb.Write(g.Bytes(g.Intn(free + 1)))
 		}
-		for k, steps := 0, g.Intn(4); k < steps; k++ {
+		for k, steps := 0, g.Intn(4); !fast && k < steps; k++ {
 			if g.Chance(60) {
 				free := rb.Capacity() - rb.Length()
 				m := g.Intn(free + 1)
@@ -44,7 +49,23 @@ func (r *Run) ringCases(n int) {
 		sz, rr, ww, emp := int(v.FieldByName("size").Int()), int(v.FieldByName("r").Int()), int(v.FieldByName("w").Int()), v.FieldByName("isEmpty").Bool()
 		var ops, outs []string
 		for k, steps := 0, 1+g.Intn(8); k < steps; k++ {
-			switch g.Intn(4) {
+			kind := g.Intn(5)
+			if fast && kind == 3 {
+				kind = 4
+			}
+			switch kind {
+			case 4:
+				f, e := rb.PeekAll()
+				ops = append(ops, "a")
+				outs = append(outs, "A "+hx(f)+"|"+hx(e))
+				if fast && len(e) > 0 {
+					r.violate(Violation{What: "PeekAll on a NewWithData ring that was only read from returned a second slice: the read loop's 'first, _ := PeekAll()' would lose bytes", Case: strings.Join(ops, " ")})
+				}
+				if len(e) > 0 {
+					r.count("ring.peekall.split")
+				} else {
+					r.count("ring.peekall.single")
+				}
 			case 3:
 				free := rb.Capacity() - rb.Length()
 				m := g.Intn(free + 2)
